@@ -31,6 +31,37 @@ func main() {
 	switch os.Args[1] {
 	case "dump":
 		dump(os.Args[2], os.Args[3])
+	case "loops":
+		g, err := loadGen(repoDir, []string{os.Args[2]}, "")
+		if err != nil {
+			fmt.Fprintln(os.Stderr, err)
+			os.Exit(2)
+		}
+		for fn := range ssaAllFunctions(g.prog) {
+			if fn.Name() == os.Args[3] || strings.HasSuffix(fn.String(), os.Args[3]) {
+				ls, err := findLoops(fn)
+				fmt.Println(fn.String(), err)
+				for _, l := range ls {
+					pos := ""
+					for _, ins := range l.header.Instrs {
+						if ins.Pos().IsValid() {
+							pos = g.prog.Fset.Position(ins.Pos()).String()
+							break
+						}
+					}
+					if pos == "" {
+						for b := range l.blocks {
+							for _, ins := range b.Instrs {
+								if ins.Pos().IsValid() && pos == "" {
+									pos = g.prog.Fset.Position(ins.Pos()).String()
+								}
+							}
+						}
+					}
+					fmt.Printf("  loop %d header block %d (%s) %d blocks near %s\n", l.ordinal, l.header.Index, l.header.Comment, len(l.blocks), pos)
+				}
+			}
+		}
 	case "check":
 		tier := "quick"
 		if len(os.Args) > 3 {
